@@ -33,7 +33,7 @@ theorem enabled_spec (gen : Str) (m : List (Str × List Str)) (hd : DistinctKeys
     isEnabled gen m = enabledSpec gen m := by
   unfold isEnabled enabledSpec
   rw [loop_spec _ _ _ hd]
-  generalize "gengo:".toList ++ gen = p
+  generalize Gengo.Gen.tagPrefix ++ gen = p
   rcases hl : List.lookup p m with _ | vs <;> simp [hl]
 
 theorem distinct_tail {x : Str × List Str} {l : List (Str × List Str)} (hd : DistinctKeys (x :: l)) :
@@ -75,11 +75,14 @@ theorem enabled_perm (gen : Str) {m₁ m₂ : List (Str × List Str)} (h : m₁.
   unfold enabledSpec
   simp only
   rw [lookup_perm h hd]
-  rcases hl : List.lookup ("gengo:".toList ++ gen) m₂ with _ | vs
+  rcases hl : List.lookup (Gengo.Gen.tagPrefix ++ gen) m₂ with _ | vs
   · simp only; exact h.any_eq
   · rfl
 
-/-- generator names that are prefixes of one another do not enable each other -/
+/-- the prefix regenerated from `IsGeneratorEnabled` is the one the statement names -/
+theorem tagPrefix_is_gengo : Gengo.Gen.tagPrefix = "gengo:".toList := by decide
+
+-- generator names that are prefixes of one another do not enable each other
 example : isEnabled "deepcopy".toList [("gengo:deepcopyx".toList, [[]]), ("gengo:deepcopyx:a".toList, [[]])] = false := by decide
 example : isEnabled "deepcopy".toList [("gengo:deepcopy:interfaces".toList, ["X".toList])] = true := by decide
 example : isEnabled "g".toList [("gengo:g:sub".toList, [[]]), ("gengo:g".toList, ["false".toList])] = false := by decide
